@@ -22,7 +22,10 @@ for d in dirs:
         subprocess.run(["git", "-C", "/repo", "checkout", "--", "."])
         subprocess.run(["git", "-C", "/repo", "clean", "-fdq", "--", "duckscript", "duckscript_sdk", "duckscript_cli"])
     print(d, "rc=%s" % res[d]["rc"], "%ss" % res[d]["wall_s"], (res[d]["first_signatures"] or [""])[0][:100], flush=True)
-json.dump(res, open(os.path.join(ROOT, "seeded", "RESULTS.json"), "w"), indent=1)
+out = os.path.join(ROOT, "seeded", "RESULTS.json")
+allres = json.load(open(out)) if os.path.exists(out) and sys.argv[1:] else {}      # a partial run updates the file, a full run rewrites it
+allres.update(res)
+json.dump(dict(sorted(allres.items())), open(out, "w"), indent=1)
 missed = [d for d, v in res.items() if v["rc"] != 1]
 print("caught %d of %d; not caught: %s" % (len(res) - len(missed), len(res), missed))
 subprocess.run(["git", "-C", ROOT, "checkout", "evidence"])
